@@ -29,11 +29,12 @@ pub mod c15;
 pub mod c16;
 pub mod c17;
 pub mod c18;
+pub mod c19;
 pub mod c20;
 
 use runner::{Run, Sub};
 
-pub const PROPS: &[&str] = &["C01", "C02", "C03", "C04", "C05", "C06", "C07", "C08", "C09", "C10", "C11", "C12", "C13", "C14", "C15", "C16", "C17", "C18", "C20"];
+pub const PROPS: &[&str] = &["C01", "C02", "C03", "C04", "C05", "C06", "C07", "C08", "C09", "C10", "C11", "C12", "C13", "C14", "C15", "C16", "C17", "C18", "C19", "C20"];
 
 pub fn subs_of(prop: &str) -> Option<Vec<Sub>> {
     match prop {
@@ -55,6 +56,7 @@ pub fn subs_of(prop: &str) -> Option<Vec<Sub>> {
         "C16" => Some(c16::subs()),
         "C17" => Some(c17::subs()),
         "C18" => Some(c18::subs()),
+        "C19" => Some(c19::subs()),
         "C20" => Some(c20::subs()),
         _ => None,
     }
@@ -80,6 +82,7 @@ pub fn run_prop(run: &Run) -> bool {
         "C16" => c16::run(run),
         "C17" => c17::run(run),
         "C18" => c18::run(run),
+        "C19" => c19::run(run),
         "C20" => c20::run(run),
         _ => return false,
     }
@@ -93,6 +96,7 @@ pub fn child_main(args: &[String]) -> i32 {
         Some("c10") => c10::child(&args[1..]),
         Some("c13") => c13::child(&args[1..]),
         Some("c18") => c18::child(&args[1..]),
+        Some("c19") => c19::child(&args[1..]),
         Some("c20") => c20::child(&args[1..]),
         _ => 2,
     }
